@@ -71,6 +71,23 @@ class Folder:
             raise Unfoldable(f"constant {node.value!r}")
         if isinstance(node, (ast.List, ast.Tuple)):
             return [self.fold(e) for e in node.elts]
+        if isinstance(node, ast.JoinedStr):
+            out = ""
+            for part in node.values:
+                if isinstance(part, ast.Constant) and isinstance(part.value, str):
+                    out += part.value
+                elif isinstance(part, ast.FormattedValue) and part.conversion == -1:
+                    v = self.fold(part.value)
+                    spec = self.fold(part.format_spec) if part.format_spec is not None else ""
+                    if isinstance(v, list) or not isinstance(spec, str):
+                        raise Unfoldable("formatted value")
+                    try:
+                        out += format(v, spec)
+                    except (ValueError, TypeError) as exc:
+                        raise Unfoldable(str(exc))
+                else:
+                    raise Unfoldable("f-string part")
+            return out
         if isinstance(node, ast.Name):
             if node.id in self.names:
                 v = self.names[node.id]
@@ -272,6 +289,12 @@ class Folder:
                         return [int(red(bool(t) for t in row)) for row in v]
                     return [int(red(bool(row[j]) for row in v)) for j in range(len(v[0]))]
                 raise Unfoldable("any/all over an axis")
+            if m in ("repeat_interleave", "repeat", "tile"):
+                v = self.fold(node.func.value)
+                cnt = [self.fold(a) for a in node.args]
+                if isinstance(v, list) and not any(isinstance(x, list) for x in v) and len(cnt) == 1 and isinstance(cnt[0], int) and not isinstance(cnt[0], bool) and not [k for k in node.keywords if not (k.arg == "dim" and self.fold(k.value) in (0, -1))]:
+                    return [x for x in v for _ in range(cnt[0])] if m == "repeat_interleave" else list(v) * cnt[0]
+                raise Unfoldable(f"method {m} beyond 1-D")
             if m in ("clip", "clamp", "log1p", "minimum", "maximum", "flip", "fliplr", "flipud"):
                 fake = ast.Call(func=ast.Attribute(value=ast.Name(id="torch", ctx=ast.Load()), attr=m, ctx=ast.Load()), args=[node.func.value] + list(node.args), keywords=list(node.keywords))
                 return self.fold(fake)
@@ -305,6 +328,23 @@ class Folder:
         if isinstance(node, ast.Call):
             nm = call_name(node) or ""
             short = nm.split(".")[-1]
+            if short in ("cat", "concat", "concatenate", "hstack") and nm.startswith("torch.") and node.args:
+                parts = self.fold(node.args[0])
+                dim = next((self.fold(k.value) for k in node.keywords if k.arg == "dim"), self.fold(node.args[1]) if len(node.args) > 1 else 0)
+                if not (isinstance(parts, list) and all(isinstance(p_, list) for p_ in parts)):
+                    raise Unfoldable("cat of non-lists")
+                depths = {_depth(p_) for p_ in parts if p_ != []}
+                if len(depths) > 1:
+                    raise Unfoldable("cat of different ranks")
+                d_ = depths.pop() if depths else 1
+                if dim in (0, -d_):
+                    return [x for p_ in parts for x in p_]
+                if d_ == 2 and dim in (1, -1):
+                    rows = {len(p_) for p_ in parts}
+                    if len(rows) != 1:
+                        raise Unfoldable("cat row mismatch")
+                    return [[x for p_ in parts for x in p_[r]] for r in range(rows.pop())]
+                raise Unfoldable("cat axis")
             if nm == "isinstance" and len(node.args) == 2:
                 v = self.fold(node.args[0])
                 tn = unparse(node.args[1])
@@ -455,9 +495,31 @@ class Folder:
                     return _ew(lambda x, y: x**y, a, b)
                 except (TypeError, ZeroDivisionError, OverflowError) as exc:
                     raise Unfoldable(str(exc))
+            if nm == "format" and len(node.args) == 2 and not node.keywords:
+                v, spec = self.fold(node.args[0]), self.fold(node.args[1])
+                if isinstance(v, list) or not isinstance(spec, str):
+                    raise Unfoldable("format")
+                try:
+                    return format(v, spec)
+                except (ValueError, TypeError) as exc:
+                    raise Unfoldable(str(exc))
+            if nm == "int" and len(node.args) in (1, 2) and not node.keywords:
+                v = self.fold(node.args[0])
+                if isinstance(v, str):
+                    try:
+                        return int(v, self.fold(node.args[1])) if len(node.args) == 2 else int(v)
+                    except (ValueError, TypeError) as exc:
+                        raise Unfoldable(str(exc))
+                if isinstance(v, float) and len(node.args) == 1:
+                    if v != v or v in (float("inf"), float("-inf")):
+                        raise Unfoldable("int of a non-finite value")
+                    return int(v)
+                if len(node.args) == 1:
+                    return v
+                raise Unfoldable("int with a base")
             if nm in ("sorted", "enumerate") and len(node.args) == 1 and not node.keywords:
                 v = self.fold(node.args[0])
-                if not isinstance(v, list):
+                if not isinstance(v, (list, str)):
                     raise Unfoldable(f"call {nm}")
                 try:
                     return sorted(v) if nm == "sorted" else [[i, x] for i, x in enumerate(v)]
